@@ -20,7 +20,7 @@ let c03_results rs = if rs = [] then "." else String.concat "," (List.map c03_re
 let c03_fresh cs = [] :: cs
 
 let () =
-  register "run" (function [ops; cs] -> c03_results (run (c03_ops ops) (c03_fresh (c03_chunks cs))) | _ -> "?args");
+  register "buf_run" (function [ops; cs] -> c03_results (run (c03_ops ops) (c03_fresh (c03_chunks cs))) | _ -> "?args");
   register "ref_run" (function [ops; s] -> c03_results (ref_run (c03_ops ops) (bytes_of_hex s)) | _ -> "?args");
   register "run_cont" (function [ops; cs] ->
       let (rs, e) = run_cont (c03_ops ops) (c03_fresh (c03_chunks cs)) in
